@@ -22,6 +22,7 @@ import (
 	"github.com/semihalev/sdns/internal/verif/srvh"
 	"github.com/semihalev/sdns/internal/verif/vlib"
 	"github.com/semihalev/sdns/middleware/cache"
+	"github.com/semihalev/sdns/server"
 )
 
 type ddEnv struct {
@@ -35,6 +36,7 @@ type ddEnv struct {
 	nextID   uint32
 	maxLat   time.Duration
 	baseG    int
+	baseLeased int64
 	byName   map[string]int // stub calls per name
 }
 
@@ -126,6 +128,10 @@ func closeAll() {
 		dd.close()
 		dd = nil
 	}
+	if ing != nil {
+		ing.close()
+		ing = nil
+	}
 }
 
 // the clients reuse the sys client code through a thin adapter
@@ -160,6 +166,7 @@ func execDedup(f []string) vlib.Res {
 		waitFor(2*time.Second, dd.l.Srv.Quiesced)
 		time.Sleep(50 * time.Millisecond)
 		dd.baseG, _ = sdnsGoroutines()
+		dd.baseLeased = idleLeased(dd.l.Srv)
 		or := "ok"
 		if len(c.replies) != 1 {
 			or = "FAIL sig=dedup/warm-up/no-reply"
@@ -213,8 +220,12 @@ func execDedup(f []string) vlib.Res {
 		waitFor(5*time.Second, func() bool { keys = cache.VerifC11DedupKeys(e.l.Cache); return keys == 0 })
 		g := 0
 		waitFor(6*time.Second, func() bool { g, _ = sdnsGoroutines(); return g <= e.baseG+50 })
+		var leasedNow int64
+		waitFor(5*time.Second, func() bool { leasedNow, _ = server.VerifC11Leased(e.l.Srv); return leasedNow <= e.baseLeased })
 		or := "ok"
 		switch {
+		case leasedNow > e.baseLeased:
+			or = fmt.Sprintf("FAIL sig=dedup/drain/slab-lease-leaked idle=%d now=%d", e.baseLeased, leasedNow)
 		case !q:
 			or = "FAIL sig=dedup/drain/not-quiesced"
 		case keys != 0:
